@@ -2854,6 +2854,10 @@ start:
       rc = IW_ERROR_INVALID_STATE;
       goto finish;
     }
+    if (lx->lower) { // left over from a search which found nothing
+      _sblk_release(lx, &lx->lower);
+    }
+    lx->dblk.addr = 0; // always search from the current state of the database head
     rc = _cursor_get_ge_idx(lx, op, &cur->cnpos);
     if (lx->upper) {
       _sblk_release(lx, &lx->upper);
@@ -4126,6 +4130,7 @@ iwrc iwkv_cursor_del(struct iwkv_cursor *cur, iwkv_opflags opflags) {
     RCGO(rc, finish2);
 
     lx->key = &key;
+    lx->dblk.addr = 0; // do not unlink the node through a stale copy of the database head
     rc = _lx_del_sblk_lw(lx, sblk, cur->cnpos);
     lx->key = 0;
 
@@ -4135,6 +4140,8 @@ finish2:
     } else {
       rc = _lx_release(lx);
     }
+    lx->nlvl = -1;
+    lx->upper_addr = 0;
     if (key.data) {
       _kv_val_dispose(&key);
     }
